@@ -151,7 +151,7 @@ static int cv_wait_until(struct cv *c, struct ulock *l, long abs_time, struct er
   return thread_restart_state_timeout;
 }
 /* notify_one(std::move(l), priority, ec): dequeues and resumes the front waiter if any; the by-value lock is
- * released when the call returns; returns "queue still non-empty"; sets ec to success unless ec is `throws` */
+ * released when the call returns; returns "queue still non-empty"; with an empty queue it sets ec to success unless ec is `throws` (after resuming a waiter ec is left untouched) */
 static bool cv_notify_one(struct cv *c, struct ulock l, int priority, struct error_code *ec)
 {
   VX_ASSERT(vx_owns_v(l) && l.m == &vx_self->mtx_, "cv.notify_one called without the internal lock");
@@ -164,7 +164,7 @@ static bool cv_notify_one(struct cv *c, struct ulock l, int priority, struct err
     g_inflight++;
     more = g_waiters > 0;
   }
-  if (ec != &vx_throws) ec->value = pika_error_success;
+  else if (ec != &vx_throws) ec->value = pika_error_success; /* as proved in C07 cv.notify_one: ec is reset only on the empty-queue path */
   ulock_dtor(&l);
   return more;
 }
